@@ -14,7 +14,7 @@ from .orch import eqv, zor, diff_lists, _b
 
 FUNCS = ["lbfgsb.scalar_function.ScalarFunction", "lbfgsb.scalar_function.prepare_scalar_function"]
 
-OPS = ["fun", "grad", "fun_and_grad", "mutate", "rescale"]
+OPS = ["fun", "grad", "fun_and_grad", "mutate", "rescale", "mutate_returned"]
 
 
 def path(ctx, params):
@@ -84,6 +84,7 @@ def _path(ctx, params):
     sf._lowest_f = SReal(NINF)     # bookkeeping-only branch (never read), see DESIGN 2
     scale = SReal.of(1)
     last_arr = None
+    last_grad = None
     trace = []
     for step in range(L):
         op = OPS[ctx.choose_int(0, len(OPS) - 1, "op%d" % step)]
@@ -94,6 +95,14 @@ def _path(ctx, params):
             for i in range(n):
                 last_arr[i] = SReal(ctx.real("m%d_%d" % (step, i)))
             trace.append("mutate")
+            continue
+        if op == "mutate_returned":
+            # the caller overwrites, in place, the gradient array it got back last (the wrapper must not serve it again)
+            if last_grad is None:
+                raise PathAbort("no gradient returned yet")
+            for i in range(n):
+                last_grad[i] = SReal(ctx.real("r%d_%d" % (step, i)))
+            trace.append("mutate_returned")
             continue
         if op == "rescale":
             scale = SReal(ctx.real("s%d" % step))
@@ -125,6 +134,8 @@ def _path(ctx, params):
             ctx.check("C15.no_exception", True, info=dict(info, step=step, op=op, exc=type(e).__name__, msg=str(e)[:200]))
             return dict(cls="exception")
         last_arr = arr
+        if vg is not None:
+            last_grad = vg
         trace.append(op + ("*" if reuse else ""))
         sinfo = dict(info, step=step, trace=list(trace))
         if vf is not None:
@@ -194,6 +205,8 @@ def real_cases(params, cand):
             ops.append(dict(op="mutate", value=[f(model.get("m%d_%d" % (step, i), "0")) for i in range(n)]))
         elif t == "rescale":
             ops.append(dict(op="rescale", value=f(model.get("s%d" % step, "1"))))
+        elif t == "mutate_returned":
+            ops.append(dict(op="mutate_returned", value=[f(model.get("r%d_%d" % (step, i), "0")) for i in range(n)]))
         else:
             reuse = t.endswith("*")
             ops.append(dict(op=t.rstrip("*"), reuse=reuse, point=[f(model.get("p%d_%d" % (step, i), "0")) for i in range(n)]))
@@ -209,6 +222,8 @@ def real_cases(params, cand):
             o2["point"] = [0.3 + 0.1 * i for i in range(n)] if same_as_first else [0.7 * (k + 1) + 0.2 * i for i in range(n)]
         if o2["op"] == "mutate":
             o2["value"] = [1.9 + 0.3 * k + 0.1 * i for i in range(n)]
+        if o2["op"] == "mutate_returned":
+            o2["value"] = [-7.5 - 0.3 * k + 0.1 * i for i in range(n)]
         if o2["op"] == "rescale":
             o2["value"] = 2.5
         gen.append(o2)
